@@ -68,6 +68,7 @@ pub fn gen_enum(t: &mut Tape, name: &str, w: u64) -> EnumDef {
         }
         used.insert(v);
         variants.push(Variant {
+            sty: 0,
             name: format!("V{k}"),
             value,
             default: false,
@@ -77,6 +78,7 @@ pub fn gen_enum(t: &mut Tape, name: &str, w: u64) -> EnumDef {
     }
     if variants.is_empty() {
         variants.push(Variant {
+            sty: 0,
             name: "V0".into(),
             value: None,
             default: false,
@@ -89,6 +91,7 @@ pub fn gen_enum(t: &mut Tape, name: &str, w: u64) -> EnumDef {
         variants[k].default = true;
     }
     EnumDef {
+        sty: 0,
         vis: true,
         name: name.to_string(),
         doc: vec![],
@@ -268,12 +271,14 @@ impl Prop for Rejections {
             3 if writable(hi) => {
                 // max followed by an implicit variant
                 e.variants.push(Variant {
+                    sty: 0,
                     name: "Vmax".into(),
                     value: Some(Num::d(hi)),
                     default: false,
                     doc: vec![],
                 });
                 e.variants.push(Variant {
+                    sty: 0,
                     name: "Vover".into(),
                     value: None,
                     default: false,
